@@ -9,6 +9,9 @@ import (
 
 const DefaultMaxDepth = 10
 
+// inProgress marks a recipe whose resolution has started and not finished
+const inProgress = -1
+
 type Config struct {
 	MaxDepth int
 }
@@ -52,12 +55,15 @@ func resolveNode(maxDepth int, db shared.DBNodeMap, heights map[string]int, name
 	}
 
 	if height, resolved := heights[name]; resolved {
-		if level+height >= maxDepth {
+		// a recipe met again while it is being resolved is part of a cycle:
+		// its chains have every length, so the limit is exceeded
+		if height == inProgress || level+height >= maxDepth {
 			return 0, fmt.Errorf("maximum resolution depth reached")
 		}
 		return height, nil
 	}
 
+	heights[name] = inProgress
 	nel := shared.NewElements()
 	height := 0
 
